@@ -296,7 +296,7 @@ func (r *rw) rewriteStmt(st ast.Stmt, labeled string) (string, bool) {
 		return r.rewriteGo(x)
 	case *ast.SendStmt:
 		r.count("send")
-		return r.text(x) + "; simrt.Yield(" + r.site(x, "send") + ")", true
+		return "simrt.Pre(); " + r.text(x) + "; simrt.Yield(" + r.site(x, "send") + ")", true
 	case *ast.DeferStmt:
 		if sel, ok := x.Call.Fun.(*ast.SelectorExpr); ok && sel.Sel.Name == "Unlock" {
 			if ptr, ok := r.isSync(sel.X, "Mutex"); ok {
@@ -311,7 +311,7 @@ func (r *rw) rewriteStmt(st ast.Stmt, labeled string) (string, bool) {
 				if u, ok := x.Results[0].(*ast.UnaryExpr); ok && u.Op == token.ARROW {
 					r.count("recv")
 					v := fmt.Sprintf("__r%d", r.uniq())
-					return fmt.Sprintf("%s := %s; simrt.Yield(%s); return %s", v, r.text(u), r.site(x, "recv"), v), true
+					return fmt.Sprintf("simrt.Pre(); %s := %s; simrt.Yield(%s); return %s", v, r.text(u), r.site(x, "recv"), v), true
 				}
 			}
 			r.flag(x, "return containing receive")
@@ -326,6 +326,14 @@ func (r *rw) rewriteStmt(st ast.Stmt, labeled string) (string, bool) {
 				}
 			}
 			if sel, ok := call.Fun.(*ast.SelectorExpr); ok {
+				if pk, ok := sel.X.(*ast.Ident); ok && sel.Sel.Name == "Sleep" {
+					if pn, ok := r.info.Uses[pk].(*types.PkgName); ok && pn.Imported().Path() == "time" {
+						// a sleeper woken by the clock parks again, so that the
+						// director also decides the order of simultaneous wake-ups
+						r.count("sleep")
+						return "simrt.Pre(); " + r.text(x) + "; simrt.Yield(" + r.site(x, "sleep") + ")", true
+					}
+				}
 				switch sel.Sel.Name {
 				case "Lock":
 					if ptr, ok := r.isSync(sel.X, "Mutex"); ok {
@@ -345,26 +353,26 @@ func (r *rw) rewriteStmt(st ast.Stmt, labeled string) (string, bool) {
 				case "Wait":
 					if _, ok := r.isSync(sel.X, "WaitGroup"); ok {
 						r.count("wgwait")
-						return r.text(x) + "; simrt.Yield(" + r.site(x, "wgwait") + ")", true
+						return "simrt.Pre(); " + r.text(x) + "; simrt.Yield(" + r.site(x, "wgwait") + ")", true
 					}
 				}
 			}
 		}
 		if hasRecv(x) {
 			r.count("recv")
-			return r.text(x) + "; simrt.Yield(" + r.site(x, "recv") + ")", true
+			return "simrt.Pre(); " + r.text(x) + "; simrt.Yield(" + r.site(x, "recv") + ")", true
 		}
 		return "", false
 	case *ast.AssignStmt:
 		if hasRecv(x) {
 			r.count("recv")
-			return r.text(x) + "; simrt.Yield(" + r.site(x, "recv") + ")", true
+			return "simrt.Pre(); " + r.text(x) + "; simrt.Yield(" + r.site(x, "recv") + ")", true
 		}
 		return "", false
 	case *ast.DeclStmt:
 		if hasRecv(x) {
 			r.count("recv")
-			return r.text(x) + "; simrt.Yield(" + r.site(x, "recv") + ")", true
+			return "simrt.Pre(); " + r.text(x) + "; simrt.Yield(" + r.site(x, "recv") + ")", true
 		}
 		return "", false
 	case *ast.IfStmt:
@@ -420,9 +428,9 @@ func (r *rw) rewriteRange(x *ast.RangeStmt) (string, bool) {
 	switch t.Underlying().(type) {
 	case *types.Chan:
 		r.count("range_chan")
-		hdr := string(r.src[r.off(x.Pos()):r.off(x.Body.Lbrace)+1])
+		hdr := string(r.src[r.off(x.Pos()) : r.off(x.Body.Lbrace)+1])
 		body := r.bodyInner(x.Body)
-		return hdr + " simrt.Yield(" + r.site(x, "rangerecv") + ");" + body + "}; simrt.Yield(" + r.site(x, "rangeend") + ")", true
+		return "simrt.Pre(); " + hdr + " simrt.Yield(" + r.site(x, "rangerecv") + ");" + body + "; simrt.Pre() }; simrt.Yield(" + r.site(x, "rangeend") + ")", true
 	case *types.Map:
 		if !pureExpr(x.X) {
 			r.flag(x, "range over non-pure map expression")
@@ -595,7 +603,7 @@ func (r *rw) rewriteSelect(s *ast.SelectStmt, labeled string) (string, bool) {
 		b.WriteString(poll())
 	}
 	if def == nil {
-		fmt.Fprintf(&b, "if __i%d < 0 { select { ", id)
+		fmt.Fprintf(&b, "if __i%d < 0 { simrt.Pre(); select { ", id)
 		for i, k := range cases {
 			b.WriteString(comm(i, k))
 			b.WriteString("; ")
